@@ -274,6 +274,35 @@ def dict_use(tree):
     return len(set(seen)) == 4
 
 
+def blocking_stores(tree):
+    """In each of the four branches the statement `_last_X[tid] = cpu_times(…)` that files the NEWEST sample under the
+    calling thread stands after the `if blocking: … else: …` statement, not inside it: the blocking form stores its
+    post-sleep sample exactly like the non-blocking form. True: all four are unconditional; False: at least one is
+    nested under a test on `blocking`/`interval`; anything else: NotRecognised."""
+    want = {"cpu_percent": ("_last_cpu_times", "_last_per_cpu_times"),
+            "cpu_times_percent": ("_last_cpu_times_2", "_last_per_cpu_times_2")}
+    all_uncond = True
+    for fname, (sysd, perd) in want.items():
+        fn = extract.find_def(tree, fname)
+        top = [n for n in fn.body if isinstance(n, ast.If) and extract.unparse(n.test) == "not percpu"]
+        if len(top) != 1:
+            raise NotRecognised("%s: `if not percpu:` not found exactly once at function level" % fname)
+        for d, call, block in ((sysd, "cpu_times()", top[0].body), (perd, "cpu_times(percpu=True)", top[0].orelse)):
+            pat = "%s[tid] = %s" % (d, call)
+            direct = [n for n in block if isinstance(n, ast.Assign) and extract.unparse(n) == pat]
+            anywhere = [n for b in block for n in ast.walk(b) if isinstance(n, ast.Assign) and extract.unparse(n) == pat]
+            if len(anywhere) != 1:
+                raise NotRecognised("%s: `%s` occurs %d times in its branch" % (fname, pat, len(anywhere)))
+            guards = [n for n in block if isinstance(n, ast.If) and extract.unparse(n.test) == "blocking"]
+            if len(guards) != 1:
+                raise NotRecognised("%s: `if blocking:` not found exactly once in the branch of %s" % (fname, d))
+            if not direct:
+                all_uncond = False
+            elif block.index(direct[0]) < block.index(guards[0]):
+                raise NotRecognised("%s: `%s` precedes the `if blocking:` statement" % (fname, pat))
+    return all_uncond
+
+
 def interval_guard(fn):
     src = extract.unparse(fn)
     return ("blocking = interval is not None and interval > 0.0" in src
@@ -388,6 +417,9 @@ def facts(snap, F):
               "cpu_times_percent: min(max(lo, field_perc), hi)")
     F.try_add("dictsDistinct", "Bool", lambda: extract.lean_bool(dict_use(init)),
               "each front-end branch reads/writes its own _last_* dictionary, the _2 ones being copies")
+    F.try_add("blockingStores", "Bool", lambda: extract.lean_bool(blocking_stores(init)),
+              "in all four branches `_last_X[tid] = cpu_times(…)` follows the `if blocking: … else: …` statement "
+              "(the blocking form files its post-sleep sample as the thread's last sample too)")
     pp = lambda: m("pp", lambda: proc_percent(init))
     F.try_add("procFactor", "Nat", lambda: str(pp()[0]), "Process.cpu_percent: (delta_proc / delta_time) * N")
     F.try_add("procDigits", "Nat", lambda: str(pp()[1]), "Process.cpu_percent: round(single_cpu_percent, N)")
